@@ -38,10 +38,16 @@ def make_trip_classes():
         for m in mutators:
 
             def wrapper(self, *a, _m=m, **k):
-                if getattr(self, "_armed", False):
-                    stack = [f"{f.filename.split('/geneticengine/')[-1]}:{f.lineno}:{f.name}" for f in traceback.extract_stack()[:-1] if "/geneticengine/" in f.filename or "/geml/" in f.filename][-3:]
-                    EVENTS.append({"container": getattr(self, "_label", "?"), "method": _m, "args": core.short(a, 120), "stack": stack})
-                return getattr(base, _m)(self, *a, **k)
+                if not getattr(self, "_armed", False):
+                    return getattr(base, _m)(self, *a, **k)
+                before = base(self)  # small containers: a copy is cheap; a mutator call that changes nothing is not a write
+                try:
+                    return getattr(base, _m)(self, *a, **k)
+                finally:
+                    changed = (list(before) != list(self)) if base is list else (before != base(self))
+                    if changed:
+                        stack = [f"{f.filename.split('/geneticengine/')[-1]}:{f.lineno}:{f.name}" for f in traceback.extract_stack()[:-1] if "/geneticengine/" in f.filename or "/geml/" in f.filename][-3:]
+                        EVENTS.append({"container": getattr(self, "_label", "?"), "method": _m, "args": core.short(a, 120), "stack": stack})
 
             ns[m] = wrapper
         return type(name, (base,), ns)
@@ -171,6 +177,9 @@ def gen_cases(tier, seed):
     for desc in descs:
         for rk, dk in workload.config_grid(rng):
             yield {"kind": "gf", "desc": desc, "repr": rk, "decider": dk, "extra_depth": rng.choice([0, 1, 2, 3]), "seed": rng.randrange(10**6), "nops": rng.randint(10, 24), "search": rng.choice(["gp", "rs", "hc", "opo", None, None])}
+    for desc in grammars.family(seed + 2, n // 4, "weighted", with_fixed=False):  # weight-aware paths, deep enough to matter
+        for rk in ("tree", "ge", "stack"):
+            yield {"kind": "gf", "desc": desc, "repr": rk, "decider": "progressive" if rk != "stack" else "own", "extra_depth": 4, "seed": rng.randrange(10**6), "nops": rng.randint(10, 24), "search": rng.choice(["gp", "rs", None])}
     for i in range(n // 4):
         for rk, dk in workload.config_grid(rng):
             yield {"kind": "faulty", "k": 1 + i % 5, "repr": rk, "decider": dk, "extra_depth": rng.choice([0, 1, 2, 4]), "seed": rng.randrange(10**6), "nops": rng.randint(10, 24), "search": rng.choice(["gp", "rs", None])}
